@@ -120,6 +120,18 @@ fn check_id(v: u32) -> CheckResult {
     let back = HpoTermId::from(bytes);
     crate::ensure!(back == id, "roundtrip/bytes", "from(to_be_bytes({v})) = {back:?}");
     crate::ensure!(HpoTermId::from(v) == id, "from-u32", "From<u32>({v}) != from_u32");
+    // the other integer conversions and the text comparisons agree with the id
+    crate::ensure!(HpoTermId::from(u64::from(v)) == id && HpoTermId::from(v as usize) == id, "from-u64-usize", "From<u64>/From<usize>({v}) differ from from_u32");
+    if let Ok(small) = u16::try_from(v) {
+        crate::ensure!(HpoTermId::from(small) == id, "from-u16", "From<u16>({v}) differs from from_u32");
+    }
+    if v % 64 == 0 || v < 4096 {
+        crate::ensure!(HpoTermId::from(text.clone()) == id, "from-string", "From<String>({text:?}) differs from the id {v}");
+        crate::ensure!(id == text.as_str() && id == *text.as_str(), "eq-str", "HpoTermId({v}) == {text:?} is false");
+        let other = format!("HP:{:07}", v.wrapping_add(1));
+        crate::ensure!(!(id == other.as_str()), "eq-str", "HpoTermId({v}) == {other:?} is true");
+        crate::ensure!(format!("{id:?}") == format!("HpoTermId({text})"), "debug", "Debug of {v} is {:?}", format!("{id:?}"));
+    }
     Ok(())
 }
 
@@ -172,7 +184,7 @@ impl Property for C20 {
         "C20"
     }
     fn rule(&self) -> String {
-        "Enumerated (exhaustive sub-sweep, both tiers): every id 0..10^7 plus 10^7..10^7+10^4, powers of two and the u32 borders: to_string == 'HP:'+7-digit zero padding, try_from(to_string) == id, from(to_be_bytes) == id, from_u32/as_u32/From<u32> agree. Generated: strings = prefix pool (HP:, hp:, short, multi-byte prefixes whose 3rd byte lies inside a character) x body pool (digits, leading zeros, +/-, spaces, overflow 4294967295/6, non-ASCII digits, random unicode) plus arbitrary printable strings; oracle = hand-written reference parser (>=4 bytes, byte 3 on a char boundary, rest matches +?[0-9]+ and <= u32::MAX); never panics; Gene/Omim/OrphaId::try_from checked with the same grammar on the whole string. evaluations = ids enumerated + strings checked. Non-trivial = string is not the canonical rendering of an id; distinct by string.".into()
+        "Enumerated (exhaustive sub-sweep, both tiers): every id 0..10^7 plus 10^7..10^7+10^4, powers of two and the u32 borders: to_string == 'HP:'+7-digit zero padding, try_from(to_string) == id, from(to_be_bytes) == id, from_u32/as_u32/From<u32>/From<u64>/From<usize>/From<u16> agree, From<String>, == &str and Debug on every 64th id. Generated: strings = prefix pool (HP:, hp:, short, multi-byte prefixes whose 3rd byte lies inside a character) x body pool (digits, leading zeros, +/-, spaces, overflow 4294967295/6, non-ASCII digits, random unicode) plus arbitrary printable strings; oracle = hand-written reference parser (>=4 bytes, byte 3 on a char boundary, rest matches +?[0-9]+ and <= u32::MAX); never panics; Gene/Omim/OrphaId::try_from checked with the same grammar on the whole string. evaluations = ids enumerated + strings checked. Non-trivial = string is not the canonical rendering of an id; distinct by string.".into()
     }
     fn assumptions(&self) -> Vec<String> {
         vec!["'parsable to u32' is Rust's grammar: optional '+', ASCII digits, value <= u32::MAX".into()]
